@@ -983,6 +983,65 @@ func boolUnder(p *Path, t Term) (val, known bool) {
 	return condValue(p, t)
 }
 
+// positionTruth: the boolean term t mentions, besides constants, only the position variable of one top-level in-order visit of the
+// path (a range key / a counter starting at 0 and stepping by one); it has the same truth for every non-negative position —
+// decided at the break-points of its comparisons.
+func (v *sxView) positionTruth(p *Path, t Term) (val, known bool) {
+	var keyObj types.Object
+	for _, s := range p.Steps {
+		if s.Kind != "loop" || s.Loop == nil {
+			continue
+		}
+		l := s.Loop
+		if l.Range == nil {
+			continue
+		}
+		if l.Key != nil && isIntType(l.Key.Type()) {
+			mentioned := false
+			collectSubterms(t, func(u Term) {
+				if isParamTerm(u, l.Key) {
+					mentioned = true
+				}
+			})
+			if mentioned {
+				keyObj = l.Key
+			}
+		}
+	}
+	if keyObj == nil {
+		return false, false
+	}
+	points := map[int64]bool{0: true, 1: true, 2: true, 3: true, 1 << 40: true}
+	collectSubterms(t, func(u Term) {
+		if k, ok := constInt(u); ok {
+			for _, d := range []int64{-1, 0, 1} {
+				if k+d >= 0 {
+					points[k+d] = true
+				}
+			}
+		}
+	})
+	first := true
+	for k := range points {
+		e := &termEnv{hook: func(u Term) (int64, bool) {
+			if isParamTerm(u, keyObj) {
+				return k, true
+			}
+			return 0, false
+		}}
+		b, ok := e.bool(t)
+		if !ok {
+			return false, false
+		}
+		if first {
+			val, first = b, false
+		} else if b != val {
+			return false, false
+		}
+	}
+	return val, !first
+}
+
 func boolTerm(b bool) Term { return TConst{constant.MakeBool(b)} }
 
 func constBoolOf(t Term) (bool, bool) {
@@ -1122,15 +1181,23 @@ func insideNode(n ast.Node, outer ast.Node) bool {
 // inLoopExit: the function-level path p, whose last top-level loop step is at index li, left that loop from inside an iteration
 // (SX appends the steps of the leaving iteration after the loop step).
 func inLoopExit(p *Path, li int) bool {
+	if inLoopExitIndex(p, li) >= 0 {
+		return true
+	}
+	return (p.End == "return" || p.End == "panic") && len(p.Steps[li+1:]) > 0 && insideNode(p.Node, p.Steps[li].Loop.Node)
+}
+
+// inLoopExitIndex: the index of the iteration path of the loop at step li whose steps the function-level path p continues with, or -1.
+func inLoopExitIndex(p *Path, li int) int {
 	if p.End != "return" && p.End != "panic" {
-		return false
+		return -1
 	}
 	l := p.Steps[li].Loop
 	after := p.Steps[li+1:]
 	if len(after) == 0 {
-		return false
+		return -1
 	}
-	for _, ip := range l.Iter {
+	for idx, ip := range l.Iter {
 		if (ip.End != "return" && ip.End != "panic") || len(ip.Steps) != len(after) {
 			continue
 		}
@@ -1142,10 +1209,10 @@ func inLoopExit(p *Path, li int) bool {
 			}
 		}
 		if same {
-			return true
+			return idx
 		}
 	}
-	return insideNode(p.Node, l.Node)
+	return -1
 }
 
 // flagNorm applies N1 and N2 to the top-level loops of the paths of one function.
@@ -1407,6 +1474,74 @@ func (v *sxView) flagNorm(paths []*Path) []*Path {
 						ps[i] = clonePath(p)
 					}
 					ps[i].Vals[k] = boolTerm(b)
+					continue
+				}
+				// a truth value computed from the position of a visit (`index >= 0`, `i < 0`): positions are non-negative
+				if b, known := v.positionTruth(p, t); known {
+					if ps[i] == p {
+						ps[i] = clonePath(p)
+					}
+					ps[i].Vals[k] = boolTerm(b)
+				}
+			}
+		}
+		// N4: when a loop sits in an inlined helper, the value its leaving iteration returns is the helper's; the function's own
+		// result for that exit is the one of the function-level path — put it on the iteration path too, where rules read it
+		type upd struct {
+			idx  int
+			vals []Term
+		}
+		byLoop := map[*LoopRec][]upd{}
+		for _, p := range ps {
+			li := -1
+			for k, s := range p.Steps {
+				if s.Kind == "loop" && s.Loop != nil {
+					li = k
+				}
+			}
+			if li < 0 {
+				continue
+			}
+			if idx := inLoopExitIndex(p, li); idx >= 0 {
+				l := p.Steps[li].Loop
+				ip := l.Iter[idx]
+				differs := len(ip.Vals) != len(p.Vals)
+				for k := range p.Vals {
+					if !differs && !sameTerm(ip.Vals[k], p.Vals[k]) {
+						differs = true
+					}
+				}
+				if differs {
+					byLoop[l] = append(byLoop[l], upd{idx, p.Vals})
+				}
+			}
+		}
+		if len(byLoop) > 0 {
+			repl := map[*LoopRec]*LoopRec{}
+			for l, us := range byLoop {
+				l2 := *l
+				l2.Iter = append([]*Path(nil), l.Iter...)
+				for _, u := range us {
+					q := clonePath(l2.Iter[u.idx])
+					q.Vals = u.vals
+					l2.Iter[u.idx] = q
+				}
+				repl[l] = &l2
+			}
+			for i, p := range ps {
+				var q *Path
+				for k, s := range p.Steps {
+					if s.Kind == "loop" && s.Loop != nil {
+						if l2, ok := repl[s.Loop]; ok {
+							if q == nil {
+								q = clonePath(p)
+							}
+							q.Steps[k].Loop = l2
+						}
+					}
+				}
+				if q != nil {
+					ps[i] = q
 				}
 			}
 		}
@@ -1426,4 +1561,477 @@ func (v *sxView) flagNorm(paths []*Path) []*Path {
 		out = append(out, p)
 	}
 	return fold(append(append(out, added...), last...))
+}
+
+// ---------------------------------------------------------------- shrinking windows
+//
+// `for rest := xs; len(rest) > 0; rest = rest[2:] { … rest[0] … rest[1] … }` walks xs with a window that loses its first c elements
+// per round. windowNorm presents it as the index loop it stands for — rest = xs[off:], off = 0, c, 2c, … — so that rules folding
+// argument positions (`values[2j]`, `values[2j+1]`) read one form.
+
+type winRw struct {
+	o    types.Object
+	off  *types.Var
+	id   int
+	step int64
+	f    func(Term) (Term, bool)
+}
+
+func addTerms(a, b Term) Term {
+	if a == nil {
+		return b
+	}
+	if b == nil {
+		return a
+	}
+	if k, ok := constInt(a); ok && k == 0 {
+		return b
+	}
+	if k, ok := constInt(b); ok && k == 0 {
+		return a
+	}
+	if x, ok := constInt(a); ok {
+		if y, ok := constInt(b); ok {
+			return TConst{constant.MakeInt64(x + y)}
+		}
+	}
+	return TBin{Op: token.ADD, X: a, Y: b}
+}
+
+// simplifyWindows: S[lo:][k] = S[lo+k]; len(S[lo:]) = len(S)-lo; S[lo:][a:b] = S[lo+a:lo+b].
+func simplifyWindows(t Term) Term {
+	return mapBU(t, func(u Term) Term {
+		open := func(x Term) (TSlice, bool) {
+			sl, ok := x.(TSlice)
+			return sl, ok && sl.Hi == nil && sl.Max == nil && sl.Lo != nil
+		}
+		switch x := u.(type) {
+		case TIndex:
+			if sl, ok := open(x.X); ok {
+				return TIndex{X: sl.X, I: addTerms(sl.Lo, x.I), Epoch: x.Epoch}
+			}
+		case TBuiltin:
+			if x.Name == "len" && len(x.Args) == 1 {
+				if sl, ok := open(x.Args[0]); ok {
+					return TBin{Op: token.SUB, X: TBuiltin{Name: "len", Args: []Term{sl.X}, Site: x.Site, Epoch: x.Epoch}, Y: sl.Lo}
+				}
+			}
+		case TSlice:
+			if sl, ok := open(x.X); ok && x.Max == nil {
+				r := TSlice{X: sl.X, Lo: addTerms(sl.Lo, x.Lo)}
+				if x.Lo == nil {
+					r.Lo = sl.Lo
+				}
+				if x.Hi != nil {
+					r.Hi = addTerms(sl.Lo, x.Hi)
+				}
+				return r
+			}
+		}
+		return u
+	})
+}
+
+func (v *sxView) windowRewrite(l *LoopRec) *winRw {
+	if l.For == nil || l.CondT == nil || l.Post == nil {
+		return nil
+	}
+	as, ok := l.Post.(*ast.AssignStmt)
+	if !ok || len(as.Lhs) != 1 || len(as.Rhs) != 1 || as.Tok != token.ASSIGN {
+		return nil
+	}
+	o := v.c.obj(as.Lhs[0])
+	if o == nil {
+		return nil
+	}
+	if _, isSl := o.Type().Underlying().(*types.Slice); !isSl {
+		return nil
+	}
+	se, ok := ast.Unparen(as.Rhs[0]).(*ast.SliceExpr)
+	if !ok || v.c.obj(se.X) != o || se.High != nil || se.Max != nil || se.Low == nil {
+		return nil
+	}
+	tv, ok := v.c.Info.Types[se.Low]
+	if !ok || tv.Value == nil {
+		return nil
+	}
+	step, exact := constant.Int64Val(constant.ToInt(tv.Value))
+	if !exact || step <= 0 {
+		return nil
+	}
+	init, has := l.Init[o]
+	if !has {
+		return nil
+	}
+	for _, p := range l.Iter {
+		if p.End != "fall" && p.End != "continue" {
+			continue
+		}
+		if t, ok := p.Env[o]; ok {
+			if lv, same := t.(TLoop); !same || lv.Obj != o || lv.ID != l.ID {
+				return nil // the body moves the window itself
+			}
+		}
+	}
+	off := types.NewVar(l.For.Pos(), v.c.Types, "off·"+o.Name(), types.Typ[types.Int])
+	id := l.ID
+	f := func(t Term) (Term, bool) {
+		if lv, ok := t.(TLoop); ok && lv.ID == id && lv.Obj == o {
+			return TSlice{X: init, Lo: TLoop{off, id}}, true
+		}
+		return nil, false
+	}
+	return &winRw{o: o, off: off, id: id, step: step, f: f}
+}
+
+func (rw *winRw) apply(r *LoopRec) {
+	delete(r.Init, rw.o)
+	r.Init[rw.off] = TConst{constant.MakeInt64(0)}
+	if r.HeadEnv != nil {
+		r.HeadEnv[rw.off] = TLoop{rw.off, rw.id}
+	}
+	r.Post = nil
+	r.PostStep = map[types.Object]int64{rw.off: rw.step}
+	r.CondT = simplifyWindows(r.CondT)
+	for i, p := range r.Iter {
+		q := mapPath(p, func(t Term) (Term, bool) { return simplifyWindows(t), true })
+		if q.Env != nil {
+			delete(q.Env, rw.o)
+			q.Env[rw.off] = TLoop{rw.off, rw.id}
+		}
+		r.Iter[i] = q
+	}
+}
+
+// windowNorm rewrites the shrinking-window loops at the top level of the paths of one function.
+func (v *sxView) windowNorm(paths []*Path) []*Path {
+	cache := map[int]*winRw{}
+	tried := map[int]bool{}
+	out := make([]*Path, len(paths))
+	for pi, p := range paths {
+		q := p
+		for k := 0; k < len(q.Steps); k++ {
+			s := q.Steps[k]
+			if s.Kind != "loop" || s.Loop == nil {
+				continue
+			}
+			id := s.Loop.ID
+			if !tried[id] {
+				tried[id] = true
+				cache[id] = v.windowRewrite(s.Loop)
+			}
+			rw := cache[id]
+			if rw == nil {
+				continue
+			}
+			q = mapPath(q, rw.f)
+			rw.apply(q.Steps[k].Loop)
+			// what follows the loop sees the window the loop left
+			tail := mapPath(&Path{Steps: q.Steps[k+1:], Vals: q.Vals}, func(t Term) (Term, bool) { return simplifyWindows(t), true })
+			q.Steps = append(q.Steps[:k+1:k+1], tail.Steps...)
+			q.Vals = tail.Vals
+		}
+		out[pi] = q
+	}
+	return out
+}
+
+// ---------------------------------------------------------------- hand-kept positions and collected values
+//
+// shadowKey: inside `for _, x := range xs { … pos … ; pos++ }` a local that starts at 0 and is advanced by exactly one on every
+// continuing iteration IS the range key. Its mentions inside the loop are rewritten to the key (a key variable is made up when
+// the loop has none), so rules read "the callback gets the index". Only when the variable is not read after the loop.
+func (v *sxView) shadowKeyNorm(paths []*Path) []*Path {
+	type rw struct {
+		o   types.Object
+		key types.Object
+	}
+	cache := map[int]*rw{}
+	tried := map[int]bool{}
+	find := func(l *LoopRec) *rw {
+		if l.Range == nil {
+			return nil
+		}
+		if t := v.c.termType(l.Over); t != nil {
+			if _, isMap := t.Underlying().(*types.Map); isMap {
+				return nil
+			}
+		}
+		if _, ct := v.spineOf(l.Over); ct != nil && !ct.IsList {
+			return nil
+		}
+		if l.Key != nil && !isIntType(l.Key.Type()) {
+			return nil
+		}
+		for o, init := range l.Init {
+			if !isIntType(o.Type()) {
+				continue
+			}
+			if k, ok := constInt(init); !ok || k != 0 {
+				continue
+			}
+			good, n := true, 0
+			for _, ip := range l.Iter {
+				if ip.End != "fall" && ip.End != "continue" {
+					continue
+				}
+				n++
+				b, ok := ip.Env[o].(TBin)
+				if !ok || b.Op != token.ADD {
+					good = false
+					break
+				}
+				lv, isL := b.X.(TLoop)
+				one, isC := constInt(b.Y)
+				if !isL || lv.Obj != o || lv.ID != l.ID || !isC || one != 1 {
+					good = false
+					break
+				}
+			}
+			if !good || n == 0 {
+				continue
+			}
+			key := l.Key
+			if key == nil {
+				key = types.NewVar(l.Node.Pos(), v.c.Types, "key·"+o.Name(), types.Typ[types.Int])
+			}
+			return &rw{o: o, key: key}
+		}
+		return nil
+	}
+	out := make([]*Path, len(paths))
+	for pi, p := range paths {
+		q := p
+		for k := 0; k < len(q.Steps); k++ {
+			s := q.Steps[k]
+			if s.Kind != "loop" || s.Loop == nil {
+				continue
+			}
+			id := s.Loop.ID
+			if !tried[id] {
+				tried[id] = true
+				cache[id] = find(s.Loop)
+				if r := cache[id]; r != nil {
+					// read after the loop (in any path)? then leave it alone
+					for _, pp := range paths {
+						seenLoop := false
+						for _, st := range pp.Steps {
+							if st.Kind == "loop" && st.Loop != nil && st.Loop.ID == id {
+								seenLoop = true
+								continue
+							}
+							if !seenLoop {
+								continue
+							}
+							tail := &Path{Steps: []Step{st}}
+							mapPath(tail, func(t Term) (Term, bool) {
+								if lv, ok := t.(TLoop); ok && lv.ID == id && lv.Obj == r.o {
+									cache[id] = nil
+								}
+								return nil, false
+							})
+						}
+						for _, t := range pp.Vals {
+							collectSubterms(t, func(u Term) {
+								if lv, ok := u.(TLoop); ok && lv.ID == id && lv.Obj == r.o {
+									cache[id] = nil
+								}
+							})
+						}
+					}
+				}
+			}
+			r := cache[id]
+			if r == nil {
+				continue
+			}
+			f := func(t Term) (Term, bool) {
+				if lv, ok := t.(TLoop); ok && lv.ID == id && lv.Obj == r.o {
+					return TVar{r.key}, true
+				}
+				return nil, false
+			}
+			if q == p {
+				q = clonePath(p)
+			}
+			nl := mapLoop(s.Loop, f)
+			nl.Key = r.key
+			delete(nl.Init, r.o)
+			for _, ip := range nl.Iter {
+				delete(ip.Env, r.o)
+			}
+			q.Steps[k].Loop = nl
+		}
+		out[pi] = q
+	}
+	return out
+}
+
+// collectNorm: values gathered in a local []any during the visit and handed to the public constructor afterwards —
+//
+//	var kept []any; for … { kept = append(kept, x) }; return NewList(kept...)
+//
+// — are presented as the construct-then-add form the rules read: R := NewList(); for … { R.Add(x) }; return R. The constructor
+// converts its values exactly as Add/Set do (C05.R9 / C06.R1), and values are immutable or references, so the moment of the
+// conversion does not matter. Only when the slice is used for nothing else.
+func (v *sxView) collectNorm(paths []*Path) []*Path {
+	c := v.c
+	method := func(list bool, name string) *types.Func {
+		for _, ct := range c.Inv().Conts {
+			if ct.IsList == list && ct.Iface != nil {
+				for _, m := range ifaceMethods(ct.Iface) {
+					if m.Name() == name {
+						return m
+					}
+				}
+			}
+		}
+		return nil
+	}
+	out := make([]*Path, len(paths))
+	for pi, p := range paths {
+		out[pi] = p
+		li := -1
+		for k, s := range p.Steps {
+			if s.Kind == "loop" && s.Loop != nil {
+				li = k
+			}
+		}
+		if li < 0 {
+			continue
+		}
+		l := p.Steps[li].Loop
+		// the constructor step after the loop
+		ci := -1
+		for k := li + 1; k < len(p.Steps); k++ {
+			s := p.Steps[k]
+			if s.Kind == "call" && s.Call != nil && s.Call.Fun != nil && s.Call.Fun.Pkg() == c.Types && s.Call.Recv == nil &&
+				(s.Call.Fun.Name() == "NewList" || s.Call.Fun.Name() == "NewObject") && len(s.Call.Args) == 1 && s.Call.Site != nil && s.Call.Site.Ellipsis.IsValid() {
+				ci = k
+				break
+			}
+		}
+		if ci < 0 {
+			continue
+		}
+		ctor := p.Steps[ci].Call
+		lv, ok := ctor.Args[0].(TLoop)
+		if !ok || lv.ID != l.ID {
+			continue
+		}
+		acc := lv.Obj
+		sl, isSl := acc.Type().Underlying().(*types.Slice)
+		if !isSl || !isEmptyIface(sl.Elem()) {
+			continue
+		}
+		// starts empty
+		init, has := l.Init[acc]
+		empty := false
+		switch x := init.(type) {
+		case TNil:
+			empty = true
+		case TBuiltin:
+			if x.Name == "make" && len(x.Args) >= 1 {
+				if k, ok := constInt(x.Args[0]); ok && k == 0 {
+					empty = true
+				}
+			}
+		case TLit:
+			empty = len(x.Elts) == 0
+		}
+		if !has || !empty {
+			continue
+		}
+		isList := ctor.Fun.Name() == "NewList"
+		add := method(isList, map[bool]string{true: "Add", false: "Set"}[isList])
+		if add == nil {
+			continue
+		}
+		R := TCall{Fun: ctor.Fun, Name: ctor.Name, Site: ctor.Site, Epoch: ctor.Epoch}
+		good := true
+		nl := *l
+		nl.Iter = nil
+		for _, ip := range l.Iter {
+			t, changed := ip.Env[acc]
+			if x, same := t.(TLoop); !changed || (same && x.Obj == acc && x.ID == l.ID) {
+				nl.Iter = append(nl.Iter, ip)
+				continue
+			}
+			ap, isAp := t.(TBuiltin)
+			if !isAp || ap.Name != "append" || len(ap.Args) < 2 || !sameTerm(ap.Args[0], lv) {
+				good = false
+				break
+			}
+			if ce, ok := ap.Site.(*ast.CallExpr); ok && ce.Ellipsis.IsValid() {
+				good = false
+				break
+			}
+			if !isList && len(ap.Args[1:])%2 != 0 {
+				good = false
+				break
+			}
+			q := clonePath(ip)
+			call := TCall{Fun: add, Name: add.Name(), Recv: R, Args: append([]Term(nil), ap.Args[1:]...), Site: ctor.Site}
+			q.Steps = append(q.Steps, Step{Kind: "call", Call: &call, Node: ap.Site})
+			delete(q.Env, acc)
+			nl.Iter = append(nl.Iter, q)
+		}
+		if !good {
+			continue
+		}
+		// the slice is used for nothing but the constructor call
+		used := false
+		check := func(t Term) {
+			collectSubterms(t, func(u Term) {
+				if x, ok := u.(TLoop); ok && x.ID == l.ID && x.Obj == acc {
+					used = true
+				}
+			})
+		}
+		for k, s := range p.Steps {
+			if k == li || k == ci {
+				continue
+			}
+			check(s.Cond.T)
+			check(s.LHS)
+			check(s.RHS)
+			if s.Call != nil {
+				check(*s.Call)
+			}
+		}
+		for _, ip := range nl.Iter {
+			for _, s := range ip.Steps {
+				check(s.Cond.T)
+				check(s.LHS)
+				check(s.RHS)
+				if s.Call != nil && !(s.Call.Fun == add && sameTerm(s.Call.Recv, R)) {
+					check(*s.Call)
+				}
+			}
+		}
+		if used {
+			continue
+		}
+		q := clonePath(p)
+		var steps []Step
+		rcall := R
+		steps = append(steps, q.Steps[:li]...)
+		steps = append(steps, Step{Kind: "call", Call: &rcall, Node: p.Steps[ci].Node})
+		steps = append(steps, Step{Kind: "loop", Loop: &nl, Node: p.Steps[li].Node})
+		steps = append(steps, q.Steps[li+1:ci]...)
+		steps = append(steps, q.Steps[ci+1:]...)
+		q.Steps = steps
+		old := *ctor
+		sub := func(t Term) (Term, bool) {
+			if sameTerm(t, old) {
+				return R, true
+			}
+			return nil, false
+		}
+		for k, t := range q.Vals {
+			q.Vals[k] = mapTerm(t, sub)
+		}
+		out[pi] = q
+	}
+	return out
 }
